@@ -43,8 +43,18 @@ def _obj(a):
 
 
 class _ADim:
-    """the unknown dimension of the abstract vector space"""
+    """the unknown dimension of the abstract vector space; in arithmetic it is one fixed symbolic real (`adim`, >= 1 is not assumed: the
+    contracts that use it only need that every occurrence is the same number)"""
     def __repr__(self): return 'ADIM'
+    def _r(self): return core.SReal(z3.Real('adim'))
+    def __mul__(self, o): return self._r() * o
+    def __rmul__(self, o): return o * self._r()
+    def __add__(self, o): return self._r() + o
+    def __radd__(self, o): return o + self._r()
+    def __sub__(self, o): return self._r() - o
+    def __rsub__(self, o): return o - self._r()
+    def __truediv__(self, o): return self._r() / o
+    def __neg__(self): return -self._r()
 ADIM = _ADim()
 
 
